@@ -500,6 +500,10 @@ func (m *ConnectMessage) decodeMessage(src []byte) (int, error) {
 		return total, err
 	}
 
+	if len(src[total:]) < 2 {
+		return total, fmt.Errorf("connect/decodeMessage: Insufficient buffer size. Expecting %d, got %d", 2, len(src[total:]))
+	}
+
 	m.version = src[total]
 	total++
 
